@@ -32,7 +32,7 @@ BUDGET = {"quick": {"soft_s": 150, "workers": 14}, "thorough": {"soft_s": 1200, 
 MIN_EVALUATIONS = {"quick": 30, "thorough": 300}
 REQUIRED_COUNTERS = ["eval:loss_at_truth_nonzero", "eval:truth_not_stationary"]
 
-KINDS = ["general", "general", "general", "mask", "nonorth", "dataset_opt", "constant", "constant_roll"]
+KINDS = ["general", "general", "ties", "mask", "nonorth", "dataset_opt", "constant", "constant_roll", "general"]
 LOSSES = ["l2_amplitude", "l1_amplitude", "l2_intensity", "l1_intensity"]
 RATIO = {"l2_amplitude": 1e-6, "l2_intensity": 1e-6, "l1_amplitude": 1e-3, "l1_intensity": 1e-3}
 
@@ -97,6 +97,13 @@ def run_case(spec, idx, ctx):
         roi = (int(rng.integers(14, 25)), int(rng.integers(14, 25)))
         kw = dict(roi=roi, integer_centre=True, periodic_symmetric=True, pad_req=(roi[0] // 2 + 2, roi[1] // 2 + 2), phase_std=float(rng.uniform(0.1, 0.35)))
         build["com_fit"] = "constant"
+    elif kind == "ties":
+        # scan positions exactly on half-integer object pixels (both parities of the integer part): calibration chosen from powers of
+        # two so that the library's float32 arithmetic and the harness' float64 arithmetic give the same exact positions
+        roi = [(16, 16), (16, 32), (32, 16)][int(rng.integers(3))]
+        kw = dict(roi=roi, samp=(float(rng.choice([0.25, 0.5])), float(rng.choice([0.25, 0.5]))), gaussian_probe=True,
+                  step_px=(float(rng.choice([0.5, 1.5, 2.5, 1.0])), float(rng.choice([0.5, 1.5, 2.5]))), pad_req=(int(rng.integers(2, 9)), int(rng.integers(2, 9))))
+        build["com_fit"] = "no_shift"
     else:
         build["com_fit"] = "no_shift"
         if rng.random() < 0.15:
@@ -130,6 +137,30 @@ def run_case(spec, idx, ctx):
             ctx.count("constant_premise_not_met")
             ctx.observe(skipped="mean centre of mass not an integer", dev=float(dev))
             return
+    # The library clips scan positions to [0, canvas-1] by default (dataset constraint clip_scan_positions).  With an
+    # effective padding < 2 px its own canvas (floor(fov/sampling) made even + 2*pad) can be smaller than the scan extent, so
+    # the last scan row/column is silently moved (known finding, see DESIGN C02; the clip cannot be switched off through the
+    # constraints dict either: clip_scan_positions=False makes dset.forward raise KeyError).  1 in 4 such scenes is kept to
+    # re-observe the finding; the others are re-drawn with a requested padding >= 2 px, where the canvas contains the scan.
+    def _would_clip(scene):
+        return bool(np.any(scene.positions_px > np.array(scene.obj_shape[1:]) - 1 + 1e-6))
+
+    clip = "none"
+    if _would_clip(sc) and not spec.get("_lib_shape"):
+        if idx % 4 == 3:
+            clip = "on"
+        else:
+            kw2 = dict(kw, pad_req=tuple(max(2, int(p)) for p in sc.pad_req))
+            sc = scenes.make_scene(ctx.rng(idx, 2), **kw2)
+            kw = kw2
+            clip = "on" if _would_clip(sc) else "none"
+            I = scenes.simulate_scene(sc)
+            if kind == "constant_roll":
+                I = np.roll(I, roll, axis=(2, 3))
+    elif _would_clip(sc):
+        clip = "on"
+    common["positions_clipped"] = clip == "on"
+    ctx.count("scenes_clip_" + clip)
     mask = None
     if kind == "mask":
         mask = (rng.random(sc.roi) > 0.3).astype(np.float32)
@@ -149,6 +180,7 @@ def run_case(spec, idx, ctx):
             raise HarnessError("object canvas %s != harness %s even after following the library" % (lib_shape, sc.obj_shape))
         ctx.count("geometry_fallback")
         return run_case(dict(spec, _lib_shape=list(lib_shape), _lib_pad=[int(p) for p in pt.obj_padding_px]), idx, ctx)
+    pt.dset.forward(np.arange(int(np.prod(sc.gpts))), pt.obj_padding_px)  # applies the dataset's hard constraints, as every iteration does
     pos = pt.dset.scan_positions_px.detach().cpu().numpy().astype(np.float64)
     ctx.close(np.abs(pos - sc.positions_px).max(), 2e-4, "scan_positions_mismatch", lambda: "library scan positions differ from index*step/sampling+padding", **common)
     ctx.close(abs(float(pt.dset.mean_diffraction_intensity) / I.sum((2, 3)).mean() - 1), 1e-5, "mean_intensity_mismatch", "mean diffraction intensity", **common)
@@ -210,5 +242,5 @@ def run_case(spec, idx, ctx):
     frac = np.abs(sc.positions_px - np.rint(sc.positions_px))
     nfrac = int((frac.max(axis=1) > 1e-3).sum())
     par = "".join("o" if n % 2 else "e" for n in sc.roi) + ("sq" if sc.roi[0] == sc.roi[1] else "ns")
-    ctx.nontrivial((kind, sc.obj_type, sc.num_slices, sc.num_probes, par, "b1" if 1 in bsizes else "bp"), sc.meta["phase_std"] >= 0.1 and (nfrac >= 2 or kind.startswith("constant")) and minpert >= 1e-4)
-    ctx.observe(scene=sc.describe(), roll=list(roll), worst_truth_over_perturbed=worst_ratio, min_perturbed_loss=float(minpert), fractional_positions=nfrac)
+    ctx.nontrivial((kind, sc.obj_type, sc.num_slices, sc.num_probes, par, "b1" if 1 in bsizes else "bp", clip), sc.meta["phase_std"] >= 0.1 and (nfrac >= 2 or kind.startswith("constant")) and minpert >= 1e-4)
+    ctx.observe(scene=sc.describe(), roll=list(roll), clip=clip, worst_truth_over_perturbed=worst_ratio, min_perturbed_loss=float(minpert), fractional_positions=nfrac)
